@@ -133,7 +133,7 @@ func ruleAssignInBind(c *Ctx, rule string) {
 				return
 			}
 			if fieldName(fa.X.Type(), fa.Field) == "NodeName" {
-				c.ob(rule, fn, "assign request NodeName is the node being bound", st, sameParam(st.Val, fn.Params[2]), "AssignIPRequest.NodeName = nodeName parameter")
+				c.ob(rule, fn, "assign request NodeName is the node being bound", st, sameParam(st.Val, pAt(fn, 2)), "AssignIPRequest.NodeName = nodeName parameter")
 			}
 		})
 	}
